@@ -881,17 +881,32 @@ impl<'a> World<'a> {
         let est = nnodes * row_len;
         let est_bytes = nnodes * (nvars + 1) * (prec + 6);
         let armed = self.arm(faults, est, row_len, est_bytes);
-        self.disk.borrow_mut().begin_op(&armed);
-        let r = {
-            let l = self.pool[s].as_ref().unwrap();
-            catch(|| l.mesh.output(&p, prec))
-        };
-        let (hard, writes, creates) = {
-            let d = self.disk.borrow();
-            (d.hard_fired(), d.op_writes, d.op_creates)
+        let mut attempt = 0;
+        let (r, hard, writes, creates) = loop {
+            self.disk.borrow_mut().begin_op(&armed);
+            let r = {
+                let l = self.pool[s].as_ref().unwrap();
+                catch(|| l.mesh.output(&p, prec))
+            };
+            let (hard, writes, creates) = {
+                let d = self.disk.borrow();
+                (d.hard_fired(), d.op_writes, d.op_creates)
+            };
+            self.disk.borrow_mut().end_op();
+            // The operation used the simulated disk and died without a hard fault. Before that counts against
+            // it: did it also ask the REAL file system about the file (metadata, permissions, Path::exists,
+            // links)? Mirror the simulated files onto their real paths, keep mirroring, and repeat the
+            // operation under the very same fault plan: what was a mishandled transient fault fails again.
+            if attempt == 0 && r.is_err() && !hard && (writes > 0 || creates > 0) && !self.disk.borrow().mirror {
+                attempt = 1;
+                self.disk.borrow_mut().mirror = true;
+                self.materialise();
+                self.stats.count("note.seam_partially_bypassed_output_repeated_with_real_mirror");
+                continue;
+            }
+            break (r, hard, writes, creates);
         };
         self.count_fired(est);
-        self.disk.borrow_mut().end_op();
         // The code under test never touched the simulated disk and died: it writes through an API
         // the seam does not cover. Give it the real directory and run the operation again; no
         // fault can be injected there, the fault-free oracles still apply (never a false alarm).
@@ -1021,12 +1036,41 @@ impl<'a> World<'a> {
                 fresh = Some(mesh);
             }
         }
-        let (hard, reads, opens) = {
+        let (mut hard, mut reads, mut opens) = {
             let d = self.disk.borrow();
             (d.hard_fired(), d.op_reads, d.op_opens)
         };
-        self.count_fired(4);
         self.disk.borrow_mut().end_op();
+        let mut r = r;
+        if r.is_err() && !hard && (opens > 0 || reads > 0) && !self.disk.borrow().mirror {
+            // used the simulated disk and died without a hard fault: rule out that it also asked the real
+            // file system about the file (see do_output) — mirror, then repeat under the same fault plan
+            self.disk.borrow_mut().mirror = true;
+            self.materialise();
+            self.stats.count("note.seam_partially_bypassed_read_repeated_with_real_mirror");
+            self.disk.borrow_mut().begin_op(&armed);
+            match target_slot {
+                Some(s) => {
+                    let model = self.pool[s].as_ref().unwrap().model.clone();
+                    self.pool[s] = Some(Live1 { mesh: build1(&model), model });
+                    let mesh = &mut self.pool[s].as_mut().unwrap().mesh;
+                    r = catch(|| mesh.read(&p));
+                }
+                None => {
+                    let nodes: Vec<f64> = (0..fresh_nodes).map(|k| k as f64).collect();
+                    let mut mesh = Mesh1D::<f64, f64>::new(Vector::<f64>::create(nodes), nvars);
+                    r = catch(|| mesh.read(&p));
+                    fresh = Some(mesh);
+                }
+            }
+            let d = self.disk.borrow();
+            hard = d.hard_fired();
+            reads = d.op_reads;
+            opens = d.op_opens;
+            drop(d);
+            self.disk.borrow_mut().end_op();
+        }
+        self.count_fired(4);
         // read bypassed the seam (never opened anything on the simulated disk) and died: put the
         // simulated files on the real file system and let it try again, fault-free.
         let r = if r.is_err() && opens == 0 && reads == 0 {
